@@ -62,6 +62,13 @@ def m_nl(ctx, case):
             ctx.ev()
             if rs != r:
                 ctx.violation("cprNL-depends-on-error-policy", lat=lat, as_type=case.get("as", "float"), default_policy=r[1:], strict_policy=rs[1:])
+            # ... and in one that SILENCES them (np.errstate(all="ignore"), warnings ignored)
+            with np.errstate(all="ignore"), warnings.catch_warnings():
+                warnings.simplefilter("ignore")
+                rq = call(f, conv(lat))
+            ctx.ev()
+            if rq != r:
+                ctx.violation("cprNL-depends-on-error-policy", lat=lat, as_type=case.get("as", "float"), default_policy=r[1:], silenced_policy=rq[1:])
         allowed = cpr.NL_allowed(lat)
         if r[0] != "ok":
             ctx.violation("cprNL-raises", lat=lat, observed=r[1:])
